@@ -640,7 +640,24 @@ def account(chk, env, svc, m, case, info):
 async def run_service(chk, env, si, cases, unimpl, obs):
     svc = env.services[si]
     st, obj = make_service(svc, unimpl)
-    async with ChannelFor([obj]) as channel:
+    try:
+        cm = ChannelFor([obj])
+        channel = await cm.__aenter__()
+    except Exception as e:
+        # the generated server base cannot even be mounted (its handler table raises): a finding about the
+        # generated code, reported on the first case of the service, not a harness error
+        inp = env.base_input(si)
+        inp.update(cases[0] if cases else {})
+        chk.fail("server-not-mountable", inp, "grpclib.Server([Base()]) raised %r" % (e,))
+        return
+    try:
+        await _run_cases(chk, env, si, st, svc, channel, cases, obs)
+    finally:
+        await cm.__aexit__(None, None, None)
+
+
+async def _run_cases(chk, env, si, st, svc, channel, cases, obs):
+    if True:
         probe_channel(channel, st)
         for case in cases:
             fails, info = await exec_case(env, si, st, channel, case, obs)
